@@ -403,6 +403,10 @@ def parse_file_contents(data):
     :returns: A dict of the form ``{'policy_name1': 'policy1',
         'policy_name2': 'policy2,...}``
     """
+    if not data:
+        # NOTE: a policy file that is empty or has disappeared (the file
+        # cache hands out an empty mapping in that case) defines no rules.
+        return {}
     try:
         # NOTE(snikitin): jsonutils.loads() is much faster than
         # yaml.safe_load(). However jsonutils.loads() parses only JSON while
